@@ -676,6 +676,21 @@ Proof.
   unfold gp. ring.
 Qed.
 
+(* one entry after normalisation and the per-shell transforms *)
+Lemma processed_entry ma r1 mb r2 : (r1 < nrows sa)%nat -> (r2 < nrows sb)%nat ->
+  eR 0 (fadd K) (fmul K) (s_sph sb) (shell_transform K sb) (ncomp sb)
+    (eL 0 (fadd K) (fmul K) (s_sph sa) (shell_transform K sa) (ncomp sa)
+       (fun ma ia mb ib => (ncf sa ma ia * ncf sb mb ib) * ES J ma ia mb ib)) ma r1 mb r2
+  = pair_spec Ip (dd sa ma r1) (dd sb mb r2).
+Proof.
+  intros Hr1 Hr2. unfold eR, eL, dd, nrows, rows_of in *.
+  destruct (s_sph sa), (s_sph sb).
+  - apply lcomb_r. intros c Hc. apply lcomb_l. intros c1 Hc1. now apply core_entry.
+  - apply lcomb_l. intros c1 Hc1. now apply core_entry.
+  - apply lcomb_r. intros c Hc. now apply core_entry.
+  - now apply core_entry.
+Qed.
+
 Theorem processed_block_descr (blk : list (list (list (list F)))) :
   comps_ok sa ->
   blk = blk4 (nseg sa) (ncomp sa) (nseg sb) (ncomp sb) (ES J) ->
@@ -686,13 +701,7 @@ Proof.
   intros Hok ->. rewrite (norm_cont_mk sa), (norm_cont_mk sb).
   rewrite shell_block_blk4 by (now apply ncomp_pos).
   rewrite (descr_mk sa), (descr_mk sb), outer_flat4. fold (nrows sa) (nrows sb).
-  apply flat4_ext. intros ma r1 mb r2 Hma Hr1 Hmb Hr2.
-  unfold eR, eL, dd, nrows, rows_of in *.
-  destruct (s_sph sa), (s_sph sb).
-  - apply lcomb_r. intros c Hc. apply lcomb_l. intros c1 Hc1. now apply core_entry.
-  - apply lcomb_l. intros c1 Hc1. now apply core_entry.
-  - apply lcomb_r. intros c Hc. now apply core_entry.
-  - now apply core_entry.
+  apply flat4_ext. intros ma r1 mb r2 Hma Hr1 Hmb Hr2. now apply processed_entry.
 Qed.
 End Processed.
 End Pair.
@@ -1146,6 +1155,227 @@ Proof.
   - intros sa sb g1 g2 Ha Hb H1 H3. apply Ikin_sym; [|exact H2]. now apply (Hexp sa sb Ha Hb).
   - intros sa sb Ha Hb. rewrite Forall_forall in Hwf.
     apply same_function_pblock_kinetic; auto; now apply Hwf.
+Qed.
+
+(* ------------------------------------------------------------------ *)
+(* multipole moments: the trailing axis (one entry per requested order)  *)
+(* ------------------------------------------------------------------ *)
+Notation vz0 := (@vzero F).
+Notation vad := (vadd K).
+Notation vsc' := (vscale K).
+Definition okv (n : nat) (v : list F) : Prop := length v = n \/ v = [].
+
+Lemma nth_nil0 d : nth d (@nil F) 0 = 0.
+Proof. destruct d; reflexivity. Qed.
+
+Lemma nth_vscale d t v : nth d (vsc' t v) 0 = t * nth d v 0.
+Proof.
+  unfold vscale. destruct (Nat.lt_ge_cases d (length v)) as [H|H].
+  - rewrite (nth_indep _ 0 (t * 0)) by (now rewrite map_length). apply (map_nth (fmul K t)).
+  - rewrite !nth_overflow by (rewrite ?map_length; lia). ring.
+Qed.
+
+Lemma okv_vscale n t v : okv n v -> okv n (vsc' t v).
+Proof. intros [H| ->]; [left; unfold vscale; now rewrite map_length|right; reflexivity]. Qed.
+
+Lemma vadd_spec n d x y : okv n x -> okv n y ->
+  nth d (vad x y) 0 = nth d x 0 + nth d y 0 /\ okv n (vad x y).
+Proof.
+  intros Hx Hy. destruct x as [|a x'].
+  - cbn [vadd]. split; [rewrite nth_nil0; ring|exact Hy].
+  - destruct y as [|b y'].
+    + cbn [vadd]. split; [rewrite nth_nil0; ring|exact Hx].
+    + destruct Hx as [Hx|Hx]; [|discriminate]. destruct Hy as [Hy|Hy]; [|discriminate].
+      unfold vadd. split.
+      * destruct (Nat.lt_ge_cases d n) as [H|H].
+        -- rewrite (nth_map_combine _ (a :: x') (b :: y') d 0 0 0) by lia. reflexivity.
+        -- rewrite !nth_overflow by (rewrite ?map_length, ?combine_length; lia). ring.
+      * left. rewrite map_length, combine_length. lia.
+Qed.
+
+Lemma asum_vec_nth n d (L : list (F * list F)) : (forall p, In p L -> okv n (snd p)) ->
+  nth d (asum vz0 vad (map (fun p => vsc' (fst p) (snd p)) L)) 0 = fsum (map (fun p => fst p * nth d (snd p) 0) L)
+  /\ okv n (asum vz0 vad (map (fun p => vsc' (fst p) (snd p)) L)).
+Proof.
+  induction L as [|[t v] L IH]; intros H.
+  - cbn. split; [apply nth_nil0|now right].
+  - cbn [map asum fold_right fst snd]. destruct IH as [IH1 IH2]; [intros p Hp; apply H; now right|].
+    unfold asum in IH1, IH2.
+    destruct (vadd_spec n d (vsc' t v) (fold_right vad vz0 (map (fun p => vsc' (fst p) (snd p)) L))) as [E1 E2].
+    { apply okv_vscale. apply (H (t, v)). now left. }
+    { exact IH2. }
+    split; [|exact E2]. rewrite E1, IH1, nth_vscale, fsum_cons. reflexivity.
+Qed.
+
+Lemma lcomb_vec n d trow L (g : nat -> list F) : (forall c, (c < L)%nat -> okv n (g c)) ->
+  nth d (lcomb vz0 vad vsc' trow L g) 0 = lcomb 0 (fadd K) (fmul K) trow L (fun c => nth d (g c) 0)
+  /\ okv n (lcomb vz0 vad vsc' trow L g).
+Proof.
+  intros H. unfold lcomb.
+  assert (E : map (fun p : F * nat => vsc' (fst p) (g (snd p))) (combine trow (seq 0 L))
+              = map (fun p => vsc' (fst p) (snd p)) (map (fun p : F * nat => (fst p, g (snd p))) (combine trow (seq 0 L))))
+    by (now rewrite map_map).
+  rewrite E.
+  destruct (asum_vec_nth n d (map (fun p : F * nat => (fst p, g (snd p))) (combine trow (seq 0 L)))) as [E1 E2].
+  { intros p Hp. apply in_map_iff in Hp. destruct Hp as [[t c] [<- Hin]]. cbn [snd]. apply H.
+    eapply in_combine_seq. exact Hin. }
+  split; [|exact E2]. rewrite E1, map_map. reflexivity.
+Qed.
+
+(* projection of a processed vector entry to the slot d = the processed scalar entry *)
+Lemma proj_entry n d sph1 sph2 T1 T2 L1 L2 (ev : nat -> nat -> nat -> nat -> list F)
+      (c0 : nat -> nat -> nat -> nat -> F) ma r1 mb r2 :
+  (forall ma ia mb ib, (ia < L1)%nat -> (ib < L2)%nat -> okv n (ev ma ia mb ib)) ->
+  (sph1 = false -> (r1 < L1)%nat) -> (sph2 = false -> (r2 < L2)%nat) ->
+  nth d (eR vz0 vad vsc' sph2 T2 L2 (eL vz0 vad vsc' sph1 T1 L1
+           (fun ma ia mb ib => vsc' (c0 ma ia mb ib) (ev ma ia mb ib))) ma r1 mb r2) 0
+  = eR 0 (fadd K) (fmul K) sph2 T2 L2 (eL 0 (fadd K) (fmul K) sph1 T1 L1
+           (fun ma ia mb ib => c0 ma ia mb ib * nth d (ev ma ia mb ib) 0)) ma r1 mb r2.
+Proof.
+  intros Hok H1 H2. unfold eR, eL. destruct sph1, sph2.
+  - destruct (lcomb_vec n d (nth r2 T2 []) L2
+                (fun c => lcomb vz0 vad vsc' (nth r1 T1 []) L1 (fun c1 => vsc' (c0 ma c1 mb c) (ev ma c1 mb c))))
+      as [E _].
+    { intros c Hc. refine (proj2 (lcomb_vec n d _ _ _ _)). intros c1 Hc1. apply okv_vscale. now apply Hok. }
+    rewrite E. apply lcomb_ext. intros c Hc.
+    destruct (lcomb_vec n d (nth r1 T1 []) L1 (fun c1 => vsc' (c0 ma c1 mb c) (ev ma c1 mb c))) as [E' _].
+    { intros c1 Hc1. apply okv_vscale. now apply Hok. }
+    rewrite E'. apply lcomb_ext. intros c1 Hc1. apply nth_vscale.
+  - destruct (lcomb_vec n d (nth r1 T1 []) L1 (fun c1 => vsc' (c0 ma c1 mb r2) (ev ma c1 mb r2))) as [E' _].
+    { intros c1 Hc1. apply okv_vscale. apply Hok; auto. }
+    rewrite E'. apply lcomb_ext. intros c1 Hc1. apply nth_vscale.
+  - destruct (lcomb_vec n d (nth r2 T2 []) L2 (fun c => vsc' (c0 ma r1 mb c) (ev ma r1 mb c))) as [E _].
+    { intros c Hc. apply okv_vscale. apply Hok; auto. }
+    rewrite E. apply lcomb_ext. intros c Hc. apply nth_vscale.
+  - apply nth_vscale.
+Qed.
+
+Lemma map_flat4 {A B} (h : A -> B) M1 R1 M2 R2 e :
+  map (map h) (flat4 M1 R1 M2 R2 e) = flat4 M1 R1 M2 R2 (fun ma r1 mb r2 => h (e ma r1 mb r2)).
+Proof.
+  unfold flat4. rewrite concat_map_map, map_mk'. f_equal. apply mk_ext; intros ma _.
+  rewrite map_mk'. apply mk_ext; intros r1 _. rewrite concat_map_map, map_mk'. f_equal.
+  apply mk_ext; intros mb _. now rewrite map_mk'.
+Qed.
+
+Section MomentVec.
+Variables (Cx Cy Cz : F) (orders : list comp) (sa sb : shell F).
+Hypothesis H2 : 1 + 1 <> 0.
+Hypothesis Hoka : comps_ok sa.
+Hypothesis Hokb : comps_ok sb.
+Hypothesis Hexp : exps_ok sa sb.
+Hypothesis Hord : orders <> [].
+
+Lemma moment_block_blk4 :
+  moment_block K Cx Cy Cz orders sa sb
+  = blk4 (nseg sa) (ncomp sa) (nseg sb) (ncomp sb) (fun ma ia mb ib =>
+      map (fun o => ES sa sb (Jmm Cx Cy Cz orders sa sb o) ma ia mb ib) orders).
+Proof.
+  unfold moment_block. cbv zeta. rewrite mm_block_pfJ.
+  set (E := fun o => ES sa sb (Jmm Cx Cy Cz orders sa sb o)).
+  assert (Em : map (fun o => block_of K sa sb (pfJ sa sb (Jmm Cx Cy Cz orders sa sb o))) orders
+               = map (fun o => blk4 (nseg sa) (ncomp sa) (nseg sb) (ncomp sb) (E o)) orders).
+  { apply map_ext. intros o. apply block_of_pfJ. }
+  rewrite Em. change (fun ma ia mb ib => map (fun o => ES sa sb (Jmm Cx Cy Cz orders sa sb o) ma ia mb ib) orders)
+    with (fun ma ia mb ib => map (fun o => E o ma ia mb ib) orders).
+  clearbody E. clear Em. destruct orders as [|o0 rest]; [congruence|].
+  cbn [map]. unfold blk4. rewrite mk_length.
+  apply mk_ext; intros ma Hma. rewrite (nth_mk _ _ _ ma Hma), mk_length.
+  apply mk_ext; intros ia Hia. rewrite (nth_mk _ _ _ ia Hia), mk_length.
+  apply mk_ext; intros mb Hmb. rewrite (nth_mk _ _ _ mb Hmb), mk_length.
+  apply mk_ext; intros ib Hib. rewrite (nth_mk _ _ _ ib Hib). f_equal.
+  rewrite map_map. apply map_ext. intros o.
+  now rewrite (nth_mk _ _ _ ma Hma), (nth_mk _ _ _ ia Hia), (nth_mk _ _ _ mb Hmb), (nth_mk _ _ _ ib Hib).
+Qed.
+
+(* slot d of the processed moment block = table of pairings with the moment functional of order d *)
+Theorem same_function_pblock_moment d : (d < length orders)%nat ->
+  map (map (fun v => nth d v 0))
+      (pblock K vz0 vad vsc' (moment_block K Cx Cy Cz orders) (prep K sa) (prep K sb))
+  = outer (pair_spec (Imom Cx Cy Cz (nth d orders (0,0,0)%nat))) (descr sa) (descr sb).
+Proof.
+  intros Hd. unfold pblock, prep. cbn [p_shell p_norm p_T].
+  rewrite moment_block_blk4, (norm_cont_mk sa), (norm_cont_mk sb).
+  rewrite shell_block_blk4 by (now apply ncomp_pos). rewrite map_flat4.
+  unfold outer. rewrite (descr_mk sa), (descr_mk sb), outer_flat4. fold (nrows sa) (nrows sb).
+  apply flat4_ext. intros ma r1 mb r2 Hma Hr1 Hmb Hr2.
+  rewrite (proj_entry (length orders) d).
+  - rewrite <- (processed_entry sa sb (Jmm Cx Cy Cz orders sa sb (nth d orders (0,0,0)%nat))
+                  (Imom Cx Cy Cz (nth d orders (0,0,0)%nat))); [| |exact Hr1|exact Hr2].
+    + unfold eR, eL. 
+      assert (En : forall a b c e, nth d (map (fun o => ES sa sb (Jmm Cx Cy Cz orders sa sb o) a b c e) orders) 0
+                                   = ES sa sb (Jmm Cx Cy Cz orders sa sb (nth d orders (0,0,0)%nat)) a b c e).
+      { intros. rewrite (nth_indep _ 0 (ES sa sb (Jmm Cx Cy Cz orders sa sb (0,0,0)%nat) a b c e))
+          by (now rewrite map_length).
+        apply (map_nth (fun o => ES sa sb (Jmm Cx Cy Cz orders sa sb o) a b c e)). }
+      destruct (s_sph sa), (s_sph sb);
+        repeat (apply lcomb_ext; intros); now rewrite En.
+    + intros alpha beta ia ib Ha Hb Hia Hib.
+      apply (Jmm_spec Cx Cy Cz orders sa sb H2 Hoka Hokb Hexp); auto. now apply nth_In.
+  - intros. left. apply map_length.
+  - intros E. unfold nrows, rows_of in Hr1. now rewrite E in Hr1.
+  - intros E. unfold nrows, rows_of in Hr2. now rewrite E in Hr2.
+Qed.
+End MomentVec.
+
+(* naturality of the mirrored assembly under an entrywise map *)
+Lemma combine_map2 {A B} (f : A -> B) (a b : list A) :
+  combine (map f a) (map f b) = map (fun p => (f (fst p), f (snd p))) (combine a b).
+Proof. revert b; induction a as [|x a IH]; intros [|y b]; cbn; [reflexivity..|]. now rewrite IH. Qed.
+
+Lemma hcat_map {A B} (h : A -> B) (ms : list (list (list A))) :
+  map (map h) (hcat ms) = hcat (map (map (map h)) ms).
+Proof.
+  induction ms as [|m rest IH]; [reflexivity|]. destruct rest as [|m' rest']; [reflexivity|].
+  change (hcat (m :: m' :: rest'))
+    with (map (fun r12 : list A * list A => let '(r1, r2) := r12 in r1 ++ r2) (combine m (hcat (m' :: rest')))).
+  change (hcat (map (map (map h)) (m :: m' :: rest')))
+    with (map (fun r12 : list B * list B => let '(r1, r2) := r12 in r1 ++ r2)
+            (combine (map (map h) m) (hcat (map (map (map h)) (m' :: rest'))))).
+  rewrite <- IH, combine_map2, !map_map. apply map_ext. intros [r1 r2]. cbn [fst snd]. apply map_app.
+Qed.
+
+Lemma transpose_map {A B} (h : A -> B) za (m : list (list A)) :
+  transpose (h za) (map (map h) m) = map (map h) (transpose za m).
+Proof.
+  unfold transpose.
+  assert (E : length (hd [] (map (map h) m)) = length (hd [] m)) by (destruct m; cbn; [reflexivity|apply map_length]).
+  rewrite E, map_mk'. apply mk_ext; intros c _. rewrite !map_map. apply map_ext. intros row.
+  apply (map_nth h).
+Qed.
+
+Lemma two_symm_blocks_map {A B} (h : A -> B) za n (bf : nat -> nat -> list (list A)) :
+  map (map h) (two_symm_blocks za n bf) = two_symm_blocks (h za) n (fun i j => map (map h) (bf i j)).
+Proof.
+  unfold two_symm_blocks, vcat. rewrite concat_map_map, map_mk'. f_equal. apply mk_ext; intros i _.
+  rewrite hcat_map, map_mk'. f_equal. apply mk_ext; intros j _.
+  destruct (Nat.leb i j); [reflexivity|]. now rewrite transpose_map.
+Qed.
+
+(* (ii) moment_integral: slot d of every entry = pairing with the moment functional of order orders[d],
+   over the same descriptor list in the same order *)
+Theorem same_function_moment Cx Cy Cz (orders : list comp) (basis : list (shell F)) d :
+  1 + 1 <> 0 -> Forall shell_wf basis ->
+  (forall sa sb, In sa basis -> In sb basis -> exps_ok sa sb) ->
+  (d < length orders)%nat ->
+  map (map (fun v => nth d v 0)) (moment_integral K Cx Cy Cz orders basis None)
+  = outer (pair_spec (Imom Cx Cy Cz (nth d orders (0,0,0)%nat))) (descr_basis basis) (descr_basis basis).
+Proof.
+  intros H2 Hwf Hexp Hd. unfold moment_integral. rewrite two_symm_integral_unfold. cbv zeta.
+  rewrite map_length, two_symm_blocks_map. change (nth d vz0 0) with (nth d (@nil F) 0). rewrite nth_nil0.
+  assert (Hne : orders <> []) by (destruct orders; [cbn in Hd; lia|discriminate]).
+  rewrite Forall_forall in Hwf.
+  rewrite (two_symm_blocks_ext_le 0 (length basis) _
+             (fun i j => outer (pair_spec (Imom Cx Cy Cz (nth d orders (0,0,0)%nat)))
+                               (descr (nth i basis dshell)) (descr (nth j basis dshell)))).
+  - rewrite descr_basis_mk. unfold outer.
+    apply (two_symm_blocks_full (pair_spec (Imom Cx Cy Cz (nth d orders (0,0,0)%nat)))).
+    + intros i j a b _ _ _ _. apply pair_spec_sym. intros x y. apply Imom_sym.
+    + intros i Hi. apply descr_nonempty. apply Hwf. now apply nth_In.
+  - intros i j Hi Hj _. rewrite (nth_prep basis i Hi), (nth_prep basis j Hj).
+    assert (Ii : In (nth i basis dshell) basis) by (now apply nth_In).
+    assert (Ij : In (nth j basis dshell) basis) by (now apply nth_In).
+    apply same_function_pblock_moment; auto; try (now apply Hwf).
 Qed.
 
 (* ------------------------------------------------------------------ *)
